@@ -2,6 +2,7 @@
 package main
 
 import (
+	"math"
 	"fmt"
 	"go/token"
 	"go/types"
@@ -440,20 +441,44 @@ outer:
 	r.Instance(rule, 1)
 	{
 		bad := ""
+		// constants of the acceptance test: those the domain {-1..3} separates,
+		// and the largest integer (overflow guards, which no geometry of a real
+		// file comes near and which OFFSET-FITS of C11 examines)
+		var consts func(v ssa.Value, depth int, out *[]int64)
+		consts = func(v ssa.Value, depth int, out *[]int64) {
+			if depth > 8 {
+				return
+			}
+			switch x := v.(type) {
+			case *ssa.Const:
+				if k, ok := constInt(x); ok {
+					*out = append(*out, k)
+				}
+			case *ssa.BinOp:
+				consts(x.X, depth+1, out)
+				consts(x.Y, depth+1, out)
+			case *ssa.Convert:
+				consts(x.X, depth+1, out)
+			}
+		}
 		allInstrs(fn, func(ins ssa.Instruction) {
 			bo, ok := ins.(*ssa.BinOp)
 			if !ok {
 				return
 			}
-			for _, op := range []ssa.Value{bo.X, bo.Y} {
-				if strings.HasPrefix(symKey(op), "r.") {
-					other := bo.Y
-					if op == bo.Y {
-						other = bo.X
-					}
-					if k, isK := constInt(other); isK && (k < -1 || k > 2) {
-						bad = fmt.Sprintf("%s compared with %d: outside the enumerated domain", symKey(op), k)
-					}
+			switch bo.Op {
+			case token.EQL, token.NEQ, token.LSS, token.LEQ, token.GTR, token.GEQ:
+			default:
+				return
+			}
+			if !strings.Contains(symKey(bo), "r.") {
+				return
+			}
+			var ks []int64
+			consts(bo, 0, &ks)
+			for _, k := range ks {
+				if (k < -1 || k > 2) && k != math.MaxInt64 {
+					bad = fmt.Sprintf("%s involves the constant %d: outside the enumerated domain", symKey(bo), k)
 				}
 			}
 		})
